@@ -152,7 +152,7 @@ def _bump(d, k, n=1):
 
 
 def _stats(st, d, r):
-    _bump(st.setdefault('class', {}), 'hierarchical' if d['hier'] else 'flat')
+    _bump(st.setdefault('class', {}), ('hierarchical' if d['hier'] else 'flat') + ('+diagram' if d.get('graph') else ''))
     _bump(st.setdefault('n_states', {}), str(len(mc.all_names(d['states']))))
     _bump(st.setdefault('n_models', {}), str(len(d['models'])))
     _bump(st.setdefault('n_modifications_applied', {}), str(len(d['mods']) - r.skipped_mods))
@@ -183,6 +183,16 @@ def shrink_steps(case):
             del c[key][i]
             if key != 'transitions' or c[key]:
                 yield mk(c)
+    for i, m in enumerate(d['mods']):
+        if m[0] == 'add_states' and len(m[1]) > 1:
+            for j in range(len(m[1])):
+                c = copy.deepcopy(d)
+                del c['mods'][i][1][j]
+                yield mk(c)
+    if d.get('graph'):
+        c = copy.deepcopy(d)
+        c['graph'] = False
+        yield mk(c)
     for i in range(1, len(d['models'])):
         if i == len(d['models']) - 1:
             c = copy.deepcopy(d)
@@ -256,8 +266,10 @@ class C14(runner.Check):
                 'TM.C14_current', 'TM.C14_current_export', 'TM.C14_roundtrip_markup')
     rule = ('random flat and hierarchical machine descriptions (2-4 top-level states, up to 3 levels, parallel initial '
             'lists, a distinct callback name in every state/transition/machine-level slot, all option combinations, '
-            'internal/reflexive/wildcard/list-source transitions, local transitions of nested states, 1-3 models incl. '
-            'the machine itself, 0-9 later modifications: add_states/add_transition/remove_transition/dynamic callback '
+            'internal/reflexive/wildcard/list-source transitions, local transitions of nested states, a quarter of the '
+            'machines with diagram support (GraphMachine/HierarchicalGraphMachine, mermaid), 1-3 models incl. '
+            'the machine itself, 0-9 later modifications: add_states (single definitions and lists mixing compound and '
+            'plain ones)/add_transition/remove_transition/dynamic callback '
             'registration/model moves) x histories of 6-14 triggers; a case is non-trivial when a state slot and a '
             'transition slot hold callbacks and the history executes at least one transition; distinct = different '
             'description')
